@@ -209,6 +209,9 @@ def configs_for(example, full=True, k=0):
 def check_c16(tier):
     chk = Check("C16", tier, "other")
     rng = Rng(chk.seed ^ 0xC16)
+    import check_kp
+    pr = check_proofs("C16u", check_kp.PINNED)
+    proof_coverage(chk, pr, "make theories/Props/C16u.vo && coqc theories/Props/C16u.v (Print Assumptions scanned)")
     chk.assumptions += [
         "oracle = OCaml extraction of coq/theories/ExSpec.v (exhaustive enumeration; no DP); extract/exdriver.ml re-parses the "
         "instance text independently of the Rust readers (trusted glue, like tools/*.py)",
@@ -372,6 +375,18 @@ def check_c16(tier):
                        "oracle_optimum": opt, "expected_objective": want, "failure": kind},
                       cls="%s-%s" % (cls, kind))
 
+    # ---- 5. knapsack: the Coq MODEL of the example (Knapsack.v, theorem kp_C01) vs the example's own source compiled into the harness
+    kp = check_kp.kp_correspondence(chk, Rng(chk.seed ^ 0x16A), tier)
+    if isinstance(kp, tuple):
+        kpstats, kpdis = kp
+        chk.cov["knapsack_model_correspondence"] = kpstats
+        if kpdis and not failures:
+            # the end-to-end runs above ARE the search for a failing input: none was found
+            kind, msg, ctx = kpdis[0]
+            chk.violation("unproved", "knapsack example: " + msg, dict(ctx, theorem="kp_C01 (Props/C16u.v) is about a model that no longer matches ddo/examples/knapsack/main.rs",
+                                                                         other_disagreements=[m for _, m, _ in kpdis[1:6]]))
+    else:
+        chk.cov["knapsack_model_correspondence"] = kp
     for ex in per:
         per[ex]["distinct_optima"] = len(per[ex]["distinct_optima"])
     total_runs = sum(p["runs"] for p in per.values())
